@@ -326,6 +326,79 @@ theorem step_defineProperty_refines (h : MHeap) (a : Addr) (n : Name) (d : DescA
         simp only [Option.map_some] at hr
         simp [← hr, absHeap, List.map_set]
 
+/-! ## Shape invariants of otto's [[DefineOwnProperty]] (hold for ALL inputs, also inside the Dev regions) -/
+
+theorem akeys_aupsert_present {α} (n : Name) (x y : α) (l : List (Name × α)) (h : alookup n l = some y) :
+    akeys (aupsert n x l) = akeys l := by
+  induction l with
+  | nil => simp [alookup] at h
+  | cons kp t ih =>
+    obtain ⟨k, q⟩ := kp
+    simp only [alookup] at h
+    simp only [aupsert]
+    split
+    · simp [akeys]
+    · rename_i hk
+      simp only [hk, if_false] at h
+      have := ih h
+      simp only [akeys, List.map] at this ⊢
+      rw [this]
+
+theorem akeys_aupsert_absent {α} (n : Name) (x : α) (l : List (Name × α)) (h : alookup n l = none) :
+    akeys (aupsert n x l) = akeys l ++ [n] := by
+  induction l with
+  | nil => rfl
+  | cons kp t ih =>
+    obtain ⟨k, q⟩ := kp
+    simp only [alookup] at h
+    simp only [aupsert]
+    split
+    · rename_i hk; simp [hk] at h
+    · rename_i hk
+      simp only [hk, if_false] at h
+      have := ih h
+      simp only [akeys, List.map, List.cons_append] at this ⊢
+      rw [this]
+
+/-- **No growth without extensibility, insertion order kept** (object_class.go:311): whenever
+    otto's [[DefineOwnProperty]] accepts, the prototype link and the extensible flag are untouched and
+    the key sequence is either unchanged (the name existed) or – only if the object is extensible and
+    the name was absent – the old sequence with the new name appended at the end. -/
+theorem defineOwn_shape (o o' : MObj) (n : Name) (d : MProp) (h : defineOwn o n d = some o') :
+    o'.proto = o.proto ∧ o'.ext = o.ext ∧
+    (akeys o'.props = akeys o.props ∨
+     (o.ext = true ∧ alookup n o.props = none ∧ akeys o'.props = akeys o.props ++ [n])) := by
+  rw [defineOwn_eq] at h
+  cases hl : alookup n o.props with
+  | none =>
+    rw [hl] at h
+    simp only at h
+    cases he : o.ext with
+    | false => simp [he] at h
+    | true =>
+      simp only [he, Bool.not_true, Bool.false_eq_true, if_false, Option.some.injEq] at h
+      subst h
+      exact ⟨rfl, he.symm ▸ rfl, Or.inr ⟨rfl, rfl, akeys_aupsert_absent n _ _ hl⟩⟩
+  | some prop =>
+    rw [hl] at h
+    simp only at h
+    cases hm : defineProp prop d with
+    | none => rw [hm] at h; simp at h
+    | some r =>
+      rw [hm] at h
+      simp only [Option.map_some, Option.some.injEq] at h
+      subst h
+      cases r with
+      | none => exact ⟨rfl, rfl, Or.inl rfl⟩
+      | some p => exact ⟨rfl, rfl, Or.inl (akeys_aupsert_present n p prop _ hl)⟩
+
+/-- a non-extensible object never gains a property through [[DefineOwnProperty]] -/
+theorem defineOwn_nonextensible_no_growth (o o' : MObj) (n : Name) (d : MProp)
+    (hne : o.ext = false) (h : defineOwn o n d = some o') : akeys o'.props = akeys o.props := by
+  obtain ⟨_, _, hk⟩ := defineOwn_shape o o' n d h
+  rcases hk with hk | ⟨he, _, _⟩
+  · exact hk
+  · rw [hne] at he; cases he
 /-! ## Non-vacuity of the hypotheses -/
 
 /-- a heap with a data and an accessor property … -/
